@@ -181,6 +181,19 @@ def fillNodes (d : Data) (st : Dict F) : List String → Dict F
       | some _ => st
       | none => st.set n (P.fit n d)) ns
 
+/-- a box; building it computes its content (dictionaries are functions here: a function-valued
+definition that starts with look-ups would repeat them at every later look-up of its result) -/
+structure Forced (α : Type) where
+  val : α
+
+/-- `fillNodes`, computed once: the look-ups `st n` are made while the box is built
+(`(fillNodesB …).val = fillNodes …`: `Proofs.C18.fillNodesB_val`) -/
+def fillNodesB (d : Data) (st : Dict F) : List String → Forced (Dict F)
+  | [] => ⟨st⟩
+  | n :: ns => fillNodesB d (match st n with
+      | some _ => st
+      | none => st.set n (P.fit n d)) ns
+
 /-- the fitted states the factor's value is computed with -/
 def usedFits (d : Data) (st : Dict F) (f : Factor) : List (String × F) :=
   (P.nodes f).map fun n => (n, match st n with
@@ -196,7 +209,7 @@ def evalFactor (d : Data) (na : NAAction) (s : EvalSt F) (f : Factor) : Except E
     else
       let s' : EvalSt F :=
         { cache := s.cache.set f (usedFits P d s.state f), drops := s.drops,
-          state := fillNodes P d s.state (P.nodes f) }
+          state := (fillNodesB P d s.state (P.nodes f)).val }   -- = `fillNodes P d s.state (P.nodes f)`
       match na with
       | .ignore => .ok s'
       | .raise => if (P.nulls f d).isEmpty then .ok s' else .error .nullRaise
